@@ -1,11 +1,11 @@
 SPECIFICATION Spec
 CONSTANTS
   Q = 2
-  NT = 3
+  NT = 2
   Cap = 2
   Faults = {"rd", "width", "wr"}
-  IgnoreRowErr = TRUE
-  WPR = 1
+  WPR = 3
+  IgnoreRowErr = FALSE
   IgnoreHdrErr = FALSE
 INVARIANT DoneOK
 INVARIANT EveryTargetToEveryQuery
